@@ -11,7 +11,7 @@ EXPLANATION = ('Static rules: Z1 every pipeline builder (each provided Observabl
                'defer/of_fn/start/create are called exactly once on every path of actual_subscribe and are bound FnOnce; Z3 no operator or cold '
                'source value holds shared state (no Rc/Arc/MutRc/MutArc/RefCell/Mutex/Cell field outside its type parameters) and every '
                'per-subscription cell is created inside actual_subscribe or an observer constructor (who-may-create check), so clones '
-               'subscribed any number of times share nothing. Z5 a hand-written Clone of a pipeline type copies every field from the original (a clone that resets part of the configuration subscribes to a different pipeline). Does not decide "same output each time" (value-level; follows from Z3 only '
+               'subscribed any number of times share nothing. Z6 every operator subscribes each of its sources exactly once on every path of actual_subscribe (directly, or by handing it to the one task it schedules): one subscription of the pipeline is one run of every source; Z5 a hand-written Clone of a pipeline type copies every field from the original (a clone that resets part of the configuration subscribes to a different pipeline). Does not decide "same output each time" (value-level; follows from Z3 only '
                'for deterministic user closures).')
 TECHNIQUE = 'static analysis: who-may-call / who-may-create rules over MIR event graphs, type-structure rules on operator types, operator-tree check of hand-written Clone impls (custom rustc_private driver)'
 ASSUMPTIONS = ['derive(Clone) of a handle-free struct is a deep copy; user closures are deterministic']
@@ -47,11 +47,11 @@ CELL_CREATORS = {
 START_CALLS = ('std::iter::IntoIterator::into_iter', 'std::future::IntoFuture::into_future', 'futures::StreamExt::next', 'futures::TryStreamExt::try_next',
                'futures::FutureExt::shared', 'futures::FutureExt::now_or_never')
 
-CONTROLS = ['Z5|<verif_controls::ResettingOp as Clone>::clone', 'Z1|verif_controls::eager_builder', 'Z1|verif_controls::eager_iter_builder', 'Z3|verif_controls::CountingOp']
+CONTROLS = ['Z6|<verif_controls::LazySourceOp<S> as Observable>::actual_subscribe', 'Z5|<verif_controls::ResettingOp as Clone>::clone', 'Z1|verif_controls::eager_builder', 'Z1|verif_controls::eager_iter_builder', 'Z3|verif_controls::CountingOp']
 
 
 def check(cx):
-    return z1(cx) + z2(cx) + z3(cx) + z5(cx)
+    return z1(cx) + z2(cx) + z3(cx) + z5(cx) + z6(cx)
 
 
 def _work(n):
@@ -241,4 +241,61 @@ def z5(cx):
         res.append(Finding(ID, 'Z5', '<%s as Clone>::clone' % tag, not bad, bad or 'field-wise copy', fn['span']))
     if not cx.control and n < 10:
         res.append(Finding(ID, 'Z5', 'floor', False, 'expected >= 10 hand-written Clone impls, found %d' % n))
+    return res
+
+
+def z6(cx):
+    """exactly once per subscription: every source field of an operator is subscribed once on every path of actual_subscribe"""
+    from ..core import explore, ret_states, witness, interesting_default, mentions
+    F = cx.facts
+    res = []
+    n = 0
+    for im in sorted(F.impls_of('observable::Observable'), key=lambda i: (i['file'], i['line'], i['self_s'])):
+        tag = roles.impl_tag(cx, im)
+        if cx.control != ('verif_controls' in tag):
+            continue
+        fn = F.impl_fn(im, 'actual_subscribe')
+        if fn is None or tag not in F.adts or tag in HOT:
+            continue
+        bounds = {}
+        for p in im['preds']:
+            if p['k'] == 'trait':
+                bounds.setdefault(F.tystr(p['self']), set()).add(p['tr'])
+        adt = F.adts[tag]
+        st = F.ty(F.strip_refs(im['self']))
+        amap = dict(zip(adt['generics'], [F.tystr(a) for a in st.get('a', [])]))
+        srcs = [f for f, t in roles.adt_fields(cx, tag) if F.ty(t)['k'] == 'param' and
+                'observable::Observable' in bounds.get(amap.get(F.ty(t)['n'], F.ty(t)['n']), set())]
+        if not srcs:
+            continue
+        n += 1
+        g = cx.graph(fn['key'])
+
+        def step(st_, x, lab):
+            cnt = dict(st_)
+            if x['kind'] in ('call', 'enter') and x['name'] == SUBSCRIBE and x['args'] and not x['ctx']:
+                c = recv_class(x['args'][0])
+                for s_ in srcs:
+                    if c == 'self.' + s_:
+                        cnt[s_] = min(cnt.get(s_, 0) + 1, 3)
+            if x['kind'] in ('call', 'enter') and x['name'] == SCHEDULE:
+                for s_ in srcs:
+                    if any(mentions(a, lambda e, s_=s_: e[0] == 'field' and e[2] == s_) for a in x['args']):
+                        cnt[s_] = max(cnt.get(s_, 0), 1)
+            return tuple(sorted(cnt.items()))
+        reached, pred = explore(g, (), step)
+        bad = None
+        for key in ret_states(g, reached):
+            d = dict(key[1])
+            for s_ in srcs:
+                if d.get(s_, 0) != 1:
+                    bad = (s_, d.get(s_, 0), key)
+        if bad:
+            res.append(Finding(ID, 'Z6', cx.label(fn), False,
+                               'source `%s` is subscribed %s on a path of actual_subscribe: one subscription of the pipeline must run every source exactly once (its start-up work, of_fn/defer closures, futures)' %
+                               (bad[0], 'not at all' if bad[1] == 0 else '%d times' % bad[1]), fn['span'], witness(g, pred, bad[2], interesting_default)))
+        else:
+            res.append(Finding(ID, 'Z6', cx.label(fn), True, 'each of %s subscribed exactly once on every path' % srcs, fn['span']))
+    if not cx.control and n < 50:
+        res.append(Finding(ID, 'Z6', 'floor', False, 'only %d operators with source fields found, expected >= 50' % n))
     return res
